@@ -562,6 +562,17 @@ def run_sessions(prop, res, model_ok, sessions, T, oracle, canary=True, shard=40
             continue
         first = None
         for ci, tree in enumerate(trees):
+            if ci == 1 and si % 3 == 0:
+                # a translation that cannot complete (a tree deeper than the recursion limit) in the middle of the
+                # session: the builder must not keep anything of it (field prefixes, nesting context)
+                deep = T.SearchField("a", T.FieldGroup(gentree.deep_tree(T)))
+                try:
+                    b(deep)
+                except RecursionError:
+                    dist["aborted_calls"] = dist.get("aborted_calls", 0) + 1
+                except Exception:  # noqa
+                    pass
+                del deep
             desc = gentree.describe(tree)[:1500]
             try:
                 before = lib.g_item(tree)
